@@ -116,14 +116,15 @@ def make_seed(dev, td, psi0):
 
 def run_pair(rep, rng, ci, cfg):
     import h5py
-    dev = meshes.make_device(rng, holes=cfg["holes"], terminals=cfg["terminals"], max_edge_length=0.9)
+    dev = meshes.make_device(rng, holes=cfg["holes"], terminals=cfg["terminals"], max_edge_length=0.9,
+                             **({"london_lambda": cfg["lam"]} if "lam" in cfg else {}))
     n = len(dev.mesh.sites)
     cx, cy = cfg["shift"]
     cur = None
     if cfg["terminals"] >= 2 and cfg["bias"]:
         names = [t.name for t in dev.terminals]
         cur = {names[0]: cfg["bias"], names[1]: -cfg["bias"]}
-    frames = {}
+    frames, iters = {}, {}
     with tempfile.TemporaryDirectory(prefix="pyt_c04_") as td:
         psi0 = np.ones(n, dtype=complex)
         if cfg["terminals"]:
@@ -134,8 +135,9 @@ def run_pair(rep, rng, ci, cfg):
         if cfg["terminals"]:
             psi0[ts] = 0.0
         seed1 = make_seed(dev, td, psi0)
+        scr = dict(include_screening=True, screening_tolerance=1e-3) if cfg.get("screening") else {}
         opts = runs.make_options(None, solve_time=cfg["solve_time"], dt_init=1e-3, dt_max=2e-2, adaptive=cfg["adaptive"],
-                                 save_every=10)
+                                 save_every=10, **scr)
         # dimensionless shift: link exponents are A_scale * A . (dimensionless direction)
         from tdgl.solver.solver import TDGLSolver
         s_probe = TDGLSolver(dev, opts, applied_vector_potential=shifted_field(cfg["B"], 0, 0))
@@ -152,8 +154,9 @@ def run_pair(rep, rng, ci, cfg):
             fields = (shifted_field(cfg["B"], 0, 0), shifted_field(cfg["B"], cx, cy))
         for tag, A, seed in (("a", fields[0], seed1), ("b", fields[1], seed2)):
             o = runs.make_options(td, solve_time=cfg["solve_time"], dt_init=1e-3, dt_max=2e-2, adaptive=cfg["adaptive"],
-                                  save_every=10, output_file=f"{td}/run_{tag}.h5")
+                                  save_every=10, output_file=f"{td}/run_{tag}.h5", **scr)
             sol, _ = runs.traced_solve(dev, o, A=A, currents=cur, seed_solution=seed)
+            iters[tag] = None if not scr else np.array(sol.dynamics.screening_iterations)
             with h5py.File(sol.path, "r") as f:
                 fr = []
                 for k in sorted(f["data"], key=int):
@@ -164,7 +167,14 @@ def run_pair(rep, rng, ci, cfg):
     if len(frames["a"]) != len(frames["b"]):
         rep.violation("runs related by a gauge shift recorded different numbers of frames", case)
     else:
-        tol = 1e-8
+        tol = 1e-8 if not cfg.get("screening") else 1e-6
+        if cfg.get("screening"):
+            rep.coverage["screening_pair_max_iterations"] = int(max(np.max(iters["a"]), np.max(iters["b"])))
+        if cfg.get("screening") and not np.array_equal(iters["a"], iters["b"]):
+            # the screening iteration and its convergence test are functions of gauge-invariant quantities only
+            k = next((i for i, (x, y) in enumerate(zip(iters["a"], iters["b"])) if x != y), min(len(iters["a"]), len(iters["b"])))
+            rep.violation("the number of screening iterations per step differs between a run and its uniformly gauge-shifted twin",
+                          {**case, "first_step": int(k), "steps": [len(iters["a"]), len(iters["b"])]})
         for k, (fa, fb) in enumerate(zip(frames["a"], frames["b"])):
             what = None
             if np.max(np.abs(np.abs(fa["psi"]) - np.abs(fb["psi"]))) > tol:
@@ -220,6 +230,9 @@ def run(rep: common.Report, tier: str, seed: int, replay=None) -> int:
         dict(B=0.4, shift=(0.8, -0.5), terminals=0, holes=1, bias=0.0, adaptive=True, solve_time=0.6),
         dict(B=0.3, shift=(-1.0, 0.3), terminals=2, holes=0, bias=2.0, adaptive=True, solve_time=0.6),
         dict(B=0.0, shift=(0.5, 0.5), terminals=2, holes=1, bias=1.0, adaptive=False, solve_time=0.2),
+        # screening on: the self-consistency loop and its convergence test must not see the gauge
+        dict(B=0.6, shift=(2.0, -1.5), shift_dimensionless=True, terminals=2, holes=0, bias=1.0, adaptive=True, solve_time=0.08,
+             screening=True, lam=0.3),
         # time-dependent field with a LARGE uniform shift (150, 120 in units of Bc2*xi): whether the operators are
         # refreshed must not depend on the gauge
         dict(B=0.0, ramp=(0.0, 3.0, 15.0), shift=(150.0, 120.0), shift_dimensionless=True, terminals=2, holes=0,
